@@ -216,7 +216,7 @@ def groups(nb, tier="quick"):
         gs.append(Group(
             name="pflood.step.%s.nb%d" % (part, nb), units=[is_masked, is_base_level, make_step(nb, part)], harness=harness("pflood_step", nb),
             entry="h_pflood_step", enforce="pflood_step", replace=["grid_neighbors_indices", "fsl_nextafter_up"],
-            unwindset={("pflood_step", 0): nb + 1}, defines=defines(nb), backend="sat", timeout=1500, min_obligations=50, tier=tier,
+            unwindset={("pflood_step", 0): nb + 1}, defines=defines(nb), backend="sat", timeout=1500, min_obligations=50, tier=tier, replay="replay/routing.cpp",
             no_checks=[] if part == "queue" else ALL_CHECKS,
             clause="one iteration of the flood (pop + neighbour scan), for an arbitrary node and arbitrary queue slots: " + CLAUSES[part] +
                    "; <= %d neighbours" % nb))
@@ -263,10 +263,17 @@ def make_init(nb):
         pre=common_pre(nb), defs=DEFS,
         rules=[R(r"using size_type = typename FG::size_type;", "", 1),
                R(r"const auto elevation_flat = xt::flatten\(elevation\);", "/* elevation_flat: flat view of the same buffer */", 1),
-               R(r"for \(size_type idx : graph_impl\.base_levels\(\)\)\s*\{",
+               # the seed set: the graph's base-level set (container model: an array of its members in arbitrary order).  The
+               # second alternative is vocabulary for a body that iterates the grid's status-filtered node range instead
+               # (members = nodes with that status, C17 iterator contract): such a body extracts and is judged by the contract.
+               V(r"for \(size_type idx : graph_impl\.grid\(\)\.nodes_indices\(node_status::(\w+)\)\)\s*\{",
+                 r"for (size_t bl_k = 0; bl_k < base_n; ++bl_k)\n{ size_t idx = base_list[bl_k]; "
+                 r"FSL_PRE(idx < gsize && nodes_status[idx] == NS_\1); /* members of the filtered node range (C17) */ "
+                 r"FSL_PRE(!isnan(FSL_FLAT(elevation, idx))); "),
+               V(r"for \(size_type idx : graph_impl\.base_levels\(\)\)\s*\{",
                  "for (size_t bl_k = 0; bl_k < base_n; ++bl_k)\n{ size_t idx = base_list[bl_k]; "
                  "FSL_PRE(idx < gsize && base_level[idx]); /* members of the set (container model) */ "
-                 "FSL_PRE(!isnan(FSL_FLAT(elevation, idx))); /* finite elevation field (property domain), instance at the cell read */ ", 1),
+                 "FSL_PRE(!isnan(FSL_FLAT(elevation, idx))); /* finite elevation field (property domain), instance at the cell read */ "),
                V(r"open\.emplace\(pflood_node<FG, elev_t>\(idx, elevation_flat\(idx\)\)\);",
                  "FSL_PRE(*open_n < QCAP); /* model capacity */ FSL_GHOST(if (idx == G) { G_IN_OPEN = 1; G_SLOT_O = *open_n; }) "
                  "open_buf[*open_n].m_idx = idx; open_buf[*open_n].m_elevation = FSL_FLAT(elevation, idx); *open_n = *open_n + 1;"),
@@ -364,7 +371,7 @@ def more_groups(nb, tier="quick"):
     g2 = Group(
         name="pflood.init.nb%d" % nb, units=[is_masked, is_base_level, init], harness=init_harness(nb),
         entry="h_pflood_init", enforce="pflood_init", loop_contracts=True, defines=defines(nb), backend="sat", timeout=900,
-        min_obligations=50, tier=tier,
+        min_obligations=50, tier=tier, replay="replay/routing.cpp",
         clause="init_pflood establishes the flood invariants: exactly the unmasked base levels are closed and queued with their elevation")
     g3 = Group(
         name="pflood.fill.nb%d" % nb, units=[is_masked, is_base_level, step, init, fill], harness=fill_harness(nb),
